@@ -327,6 +327,20 @@ class C10(FMonitor):
                 if not gtok and inside[nid] == 0:
                     led.V("C10", "free-worker-requests-input", "idle combiner %s has no retrieval request at the end of instant %s" % (nid, now), node=tn, policy="-")
                     return
+        # a waiting request that could be served: the item / the room is there and the node is not taking it
+        for t in live:
+            if t.status != "pending" or tname(t.edge) not in ("Buffer", "Fleet"):
+                continue
+            if t.side == "p" and led.room(t.edge) > 0:
+                led.V("C10", "pushed-when-room", "%s waits to push into %s at the end of instant %s although the edge has %d free unreserved slot(s)"
+                      % (led.nid(t.node), t.edge.id, now, led.room(t.edge)), node=tname(t.node), edge=tname(t.edge))
+                return
+            if t.side == "g":
+                avail = len(ready(t.edge)) - len(led.live_tokens(t.edge, "g", "granted"))
+                if avail > 0:
+                    led.V("C10", "taken-when-available", "%s waits for an item from %s at the end of instant %s although %d available item(s) are not reserved"
+                          % (led.nid(t.node), t.edge.id, now, avail), node=tname(t.node), edge=tname(t.edge))
+                    return
         # (iv) token hygiene
         for t in live:
             if t.status == "pending":
@@ -478,7 +492,7 @@ class C16(FMonitor):
                 pulls = led.pulls.get(nid, [])
                 for (t, it, idx) in pulls[self.pull_seen[nid]:]:
                     cur = self.split.get(nid)
-                    if cur is not None and not cur[3]:
+                    if cur is not None and not cur[3] and not any(x is cur[0] for (tt, nn, x) in led.discards if nn == nid):
                         led.V("C16", "splitter-finishes-pallet", "%s pulled %s before it had emitted pallet %s" % (nid, it.id, cur[0].id), node=tn)
                     self.split[nid] = [it, list(getattr(it, "items", [])), [], False]
                 self.pull_seen[nid] = len(pulls)
@@ -487,6 +501,13 @@ class C16(FMonitor):
                     self.emit(led, nid, n, it)
                 self.push_seen[nid] = len(pushes)
             elif tn == "Combiner":
+                pulls = led.pulls.get(nid, [])
+                for (t, it, idx) in pulls[self.pull_seen[nid]:]:
+                    if getattr(it, "flow_item_type", "") == "Pallet":
+                        # what the pallet already carried when it arrived is not this combiner's business
+                        self.comb_pallet[id(it)] = [x for x in it.items if led.loc.get(id(x)) == ("pallet", it.id)
+                                                    and not any(x is p[1] for p in pulls)]
+                self.pull_seen[nid] = len(pulls)
                 pushes = led.pushes.get(nid, [])
                 for (t, it, idx) in pushes[self.push_seen[nid]:]:
                     self.check_pallet(led, nid, n, it)
@@ -527,7 +548,14 @@ class C16(FMonitor):
         for k, (t, it, idx) in enumerate(pulls):
             src[id(it)] = (k, idx)
         got = collections.Counter()
+        before = self.comb_pallet.get(id(pal), [])
+        lost = [x.id for x in before if not any(x is y for y in pal.items)]
+        if lost:
+            led.V("C16", "combiner-keeps-earlier-content", "pallet %s arrived at %s carrying %s and leaves without %s" % (pal.id, nid, [x.id for x in before], lost), node="Combiner")
+            return
         for x in pal.items:
+            if any(x is b for b in before):
+                continue
             k, idx = src.get(id(x), (None, None))
             if k is None or k < k0:
                 led.V("C16", "combiner-content-from-its-edges", "pallet %s leaving %s carries %s which was not pulled after the pallet" % (pal.id, nid, getattr(x, "id", x)), node="Combiner")
